@@ -2,7 +2,7 @@
 REG_DRAFT = dict(
     engine='E1-enum',
     technique='bounded-exhaustive enumeration of syntax trees x layouts x character classes (non-ASCII, multi-line string literals, CRLF), single-piece edits, diagnostic / exception / session programs; invariant oracle on every position the real code reports',
-    text='Every program of a depth-1 production set, the representative set and the definition-level set, in its plain form, with every string literal made multi-line (each literal position and all), and with non-ASCII text in strings and comments, under every layout with <=1 gap deviating from canonical over a 9-separator alphabet (the 8 of C17 plus CRLF); every single-piece delete/insert/replace of the representative programs (parse errors); 25 programs that produce check diagnostics with notes and fixes, 14 that raise at run time, each under the same variants and layouts, through the check, `run` and JSON-session entry points; `garden check --json` and `garden reftest-position` through the real CLI on a bounded subset. Oracle on every position obtained (AST nodes, comments, parse errors and notes, diagnostics, notes, fixes, exceptions, session responses, CLI output): 0 <= start <= end <= len; both on UTF-8 character boundaries; line_number = number of LF before start; column = start - line start (bytes, the unit position.rs and the lexer use); end_line_number / end_column likewise for the end offset (when the end offset sits just after a newline the line of the last byte is accepted too); check --json line numbers are the 0-based ones plus 1. Exhaustive within these bounds.',
+    text='Every program of a depth-1 production set, the representative set and the definition-level set, in its plain form, with every string literal made multi-line (each literal position and all), and with non-ASCII text in strings and comments, under every layout with <=1 gap deviating from canonical over a 10-separator alphabet (the 8 of C17 plus a non-ASCII line comment and CRLF); every single-piece delete/insert/replace of the representative programs (parse errors); 25 programs that produce check diagnostics with notes and fixes and 14 that raise at run time, each under the same variants and layouts, through the check, `run` and JSON-session entry points; `garden check --json` and `garden reftest-position` through the real CLI on a bounded subset. Oracle on every position obtained (AST nodes, comments, parse errors and notes, diagnostics, notes, fixes, exceptions, session responses, CLI output): 0 <= start <= end <= len; both on UTF-8 character boundaries; line_number = number of LF before start; column = start - line start (bytes, the unit position.rs and the lexer use); end_line_number / end_column likewise for the end offset (when the end offset sits just after a newline the line of the last byte is accepted too); check --json line numbers are the 0-based ones plus 1. Exhaustive within these bounds.',
     note='Positions that point into another file (prelude) are checked against that file when it is in the repository, else counted. The LSP line/character mapping is C29. Trees deeper than the sets and more than one deviating gap are not covered.',
     design_ref='DESIGN.md §6 C23',
 )
@@ -15,7 +15,7 @@ import re
 from .. import gast, gen, layout
 from ..build import REPO
 from ..core import Machinery
-from . import c18
+from . import c17, c18
 
 NA_COMMENT = " // " + layout.NONASCII + "\n"
 CRLF = "\r\n"
@@ -24,6 +24,8 @@ POS_KEYS = {"start_offset", "end_offset", "line_number", "end_line_number", "col
 MLSTR = re.compile(rb'"(?:\\.|[^"\\])*"')
 
 X = layout.X
+NODE = "token or ast node"
+CLASS_ORDER = ["plain", "multi-line span", "CR on the line", "non-ASCII text on the line", "span contains a multi-line string literal"]
 
 
 # ---------------------------------------------------------------- the oracle
@@ -74,15 +76,15 @@ def char_class(p, S):
     span = S.b[s:e] if s <= e else b""
     if any(b"\n" in m.group(0) for m in MLSTR.finditer(span)):
         return "span contains a multi-line string literal"
+    if b"\n" in span:
+        return "multi-line span"
     ls = S.starts[S.line_of(min(s, len(S.b)))]
     le = S.starts[S.line_of(e)]
     ctx_bytes = S.b[ls:s] + span + S.b[le:e]
-    if b"\r" in S.b[ls:e]:
-        return "CR on the line"
     if any(c >= 0x80 for c in ctx_bytes):
         return "non-ASCII text on the line"
-    if b"\n" in span:
-        return "multi-line span"
+    if b"\r" in S.b[ls:e + 1]:
+        return "CR on the line"
     return "plain"
 
 
@@ -112,6 +114,61 @@ class Judge:
         self.classes = {}
         self.other_files = {}
         self.foreign = 0
+        self.node_cache = {}
+        self.found = {}
+
+    def node_positions(self, S):
+        """The positions of the AST nodes and comments of a source and the spans of its multi-line tokens
+        (one extra front job, only when a reported position is inconsistent)."""
+        if S.text not in self.node_cache:
+            r = self.ctx.pool.one({"op": "front", "src": S.text, "want": ["positions", "comments", "tokens"]})
+            ps = list(r.get("positions", [])) + [c["position"] for c in r.get("comments", [])]
+            if len(self.node_cache) > 2000:
+                self.node_cache.clear()
+            self.node_cache[S.text] = ({key(p) for p in ps}, {(a, b) for a, b in r.get("tokens", []) if b"\n" in S.b[a:b]})
+        return self.node_cache[S.text]
+
+    def report(self, source, p, S, bad, cls, detail):
+        """A reported position that is exactly the position of an AST node / comment / multi-line token is the same defect as
+        that node's (source `token or ast node`); the reporting source is recorded in the detail."""
+        if source not in (NODE, "comment"):
+            nodes, mltoks = self.node_positions(S)
+            if key(p) in nodes or (p["start_offset"], p["end_offset"]) in mltoks:
+                source, via = NODE, source
+            else:
+                via = source
+        else:
+            via = source
+        for field in bad:
+            slot = self.found.setdefault((source, field), {})
+            ent = slot.get(cls)
+            if ent is None:
+                d = dict(detail)
+                d.update(position=p, expected=expected(p, S), reported_by=via,
+                         span=S.b[p["start_offset"]:p["end_offset"]].decode("utf-8", "replace")[:200] if p["start_offset"] <= p["end_offset"] else None)
+                ent = slot[cls] = {"detail": d, "count": 0, "through": {}}
+            ent["count"] += 1
+            k = via.split(" `")[0]
+            ent["through"][k] = ent["through"].get(k, 0) + 1
+
+    def flush(self):
+        """Emit the violations: one signature per (source, field), labelled with the LEAST special character class in which the
+        pair is inconsistent (plain < multi-line span < CR < non-ASCII < multi-line string literal); the other classes in which it
+        also fails are listed in the detail."""
+        for (source, field), slot in sorted(self.found.items()):
+            cls = min(slot, key=CLASS_ORDER.index)
+            d = dict(slot[cls]["detail"])
+            d["reported_through"] = {}
+            d["instances_by_class"] = {}
+            n = 0
+            for c, e in sorted(slot.items()):
+                n += e["count"]
+                d["instances_by_class"][c] = e["count"]
+                for k, v in e["through"].items():
+                    d["reported_through"][k] = d["reported_through"].get(k, 0) + v
+            sig = f"{source}: {field} ({cls})"
+            self.ctx.violation(sig, d, d.get("cli"))
+            self.ctx.violations[sig]["count"] = n
 
     def other(self, path):
         """Source of another file a position may point into (prelude and friends live in the repository)."""
@@ -135,11 +192,8 @@ class Judge:
         bad = check_pos(p, S)
         cls = char_class(p, S) if not bad or "beyond" not in bad[0] else "plain"
         self.classes[cls] = self.classes.get(cls, 0) + 1
-        for field in bad:
-            sig = f"{source}: {field} ({cls})"
-            d = dict(detail)
-            d.update(position=p, expected=expected(p, S), span=S.b[p["start_offset"]:p["end_offset"]].decode("utf-8", "replace")[:200] if p["start_offset"] <= p["end_offset"] else None)
-            self.ctx.violation(sig, d, detail.get("cli"))
+        if bad:
+            self.report(source, p, S, bad, cls, detail)
 
     def multi(self, source, p, sources, detail):
         """A session position: consistent if it is consistent with one of the inputs sent so far."""
@@ -156,10 +210,11 @@ class Judge:
                 best = (bad, S)
         bad, S = best
         cls = char_class(p, S) if "beyond" not in bad[0] else "plain"
-        for field in bad:
-            d = dict(detail)
-            d.update(position=p, expected=expected(p, S))
-            self.ctx.violation(f"{source}: {field} ({cls})", d, detail.get("cli"))
+        self.report(source, p, S, bad, cls, detail)
+
+
+def key(p):
+    return (p["start_offset"], p["end_offset"], p["line_number"], p["end_line_number"], p["column"], p["end_column"])
 
 
 def expected(p, S):
@@ -296,6 +351,8 @@ def run(ctx):
     if quick:
         items = items[::2]
     groups = [("depth1", mk([layout.program_of(t) for t in trees])), ("representatives", mk([layout.program_of(t) for t in reps])), ("definitions", mk(items))]
+    if not quick:
+        groups.append(("depth2", mk([layout.program_of(t) for t in c17.depth2_quick()])))
     stride = int(os.environ.get("GV_LAYOUT_STRIDE", "1"))
     if stride > 1:
         ctx.cap(f"development restriction stride={stride}")
@@ -315,7 +372,7 @@ def run(ctx):
             n_na += "non-ascii" in b.variant
             base_detail = det(b, d, t, cli="garden reftest-ast / check --json <file with src>")
             for p in r.get("positions", []):
-                J.pos("ast node", p, S, OWN, base_detail)
+                J.pos(NODE, p, S, OWN, base_detail)
             for c in r.get("comments", []):
                 J.pos("comment", c["position"], S, OWN, base_detail)
             for e in r["parse_errors"]:
@@ -354,13 +411,15 @@ def run(ctx):
     dbases = layout.prepare(ctx, [(name, "diag:" + name, src) for name, src in DIAG])
     plain, ml, na = variants_of(ctx, dbases, ctx.outcome)
     n_diag = n_fix = n_note = 0
+    crashes = []
     diag_seen = set()
     cli_cases = []
     for b, d, t, r in explore_alpha(ctx, plain + ml + na, ["check"], reduced=quick):
         n_cases += 1
         n_jobs += 1
         if "parse_errors" not in r:
-            ctx.violation("front job failed: diagnostics", {"src": t, "result": str(r)[:300]})
+            ctx.outcome("check job panicked (not a position verdict): " + str(r.get("panic", r))[:90])
+            crashes.append((t, str(r)[:200]))
             continue
         S = Src(t)
         dd = det(b, d, t, cli="garden check --json <file with src>")
@@ -378,7 +437,10 @@ def run(ctx):
                 n_fix += 1
                 J.pos(f"fix `{msg_class(fx['description'])}`", fx["position"], S, OWN, dd)
         if not d or (len(cli_cases) < (400 if quick else 2000) and d[0][1] in ("\n    ", NA_COMMENT, " // c\n", CRLF)):
-            cli_cases.append((b, d, t))
+            inproc = [(e["message"], e["position"]) for e in r["parse_errors"]] or [(g["message"], g["position"]) for g in r.get("diagnostics", [])]
+            cli_cases.append((b, d, t, inproc))
+    if crashes:
+        ctx.assume(f"{len(crashes)} check jobs panicked and yield no position (a crash is C01/C02's subject, e.g. {crashes[0][0]!r}: {crashes[0][1]})")
     ctx.outcome("diagnostics", n_diag)
     ctx.outcome("diagnostic notes", n_note)
     ctx.outcome("fixes", n_fix)
@@ -446,7 +508,7 @@ def run(ctx):
     os.makedirs(os.path.join(ctx.scratch, "pos"), exist_ok=True)
 
     def cli_check(arg):
-        i, (b, d, t) = arg
+        i, (b, d, t, _) = arg
         path = ctx.tmpfile(f"pos/c{i}.gdn", t)
         rc, out, err = ctx.cli(["check", "--json", path], stdin=b"", timeout=120)
         os.remove(path)
@@ -454,41 +516,45 @@ def run(ctx):
 
     with concurrent.futures.ThreadPoolExecutor(16) as ex:
         results = list(ex.map(cli_check, enumerate(cli_cases)))
-    n_cli = 0
-    for (b, d, t), (rc, out, err, fname) in zip(cli_cases, results):
+    n_cli = n_cli_skipped = n_cli_unmatched = 0
+    for (b, d, t, inproc), (rc, out, err, fname) in zip(cli_cases, results):
         n_cases += 1
         n_jobs += 1
         if rc not in (0, 1):
-            ctx.violation(f"`check --json` ends with {rc} on a position program", {"src": t, "stderr": err}, "garden check --json <file with src>")
+            ctx.outcome(f"`check --json` ended with {rc} (no positions; a crash is C01's subject)")
             continue
         # the CLI drops a reftest footer and re-terminates lines (`lines()`), which is the identity on LF-terminated text without CR
-        t_cli = "".join(l + "\n" for l in t.splitlines()) if "\r" not in t else None
+        t_cli = "".join(l + "\n" for l in t.split("\n")[:-1]) if "\r" not in t and t.endswith("\n") else None
         if t_cli != t:
+            n_cli_skipped += 1
             continue
         S = Src(t)
         dd = det(b, d, t, cli="garden check --json <file with src>")
+        objs = []
         for line in out.splitlines():
             line = line.strip()
-            if not line.startswith("{"):
-                continue
-            try:
-                obj = json.loads(line)
-            except ValueError:
-                continue
+            if line.startswith("{"):
+                try:
+                    objs.append(json.loads(line))
+                except ValueError:
+                    pass
+        # `check --json` prints line/column pairs only; the offsets come from the same diagnostic of the in-process run
+        if len(objs) != len(inproc) or any(o.get("message") != m for o, (m, _) in zip(objs, inproc)):
+            n_cli_unmatched += 1
+            continue
+        for o, (m, p) in zip(objs, inproc):
             n_cli += 1
-            p = obj.get("position")
-            if isinstance(p, dict) and POS_KEYS <= p.keys():
-                J.pos(f"check --json `{msg_class(obj.get('message', ''))}`", p, S, {fname}, dd)
-                want = {"line_number": p["line_number"] + 1, "end_line_number": p["end_line_number"] + 1, "column": p["column"], "end_column": p["end_column"]}
-                for k, v in want.items():
-                    if obj.get(k) != v:
-                        ctx.violation(f"check --json: top-level {k} disagrees with position.{k}", dict(dd, diagnostic=obj), dd["cli"])
-                ls = S.line_of(p["start_offset"]) if p["start_offset"] <= len(S.b) else None
-                if ls is not None and obj.get("line_number") != ls + 1 and p["line_number"] == ls:
-                    ctx.violation("check --json: 1-indexed line_number disagrees with start_offset", dict(dd, diagnostic=obj), dd["cli"])
-            for where, q in walk_positions({k: v for k, v in obj.items() if k != "position"}):
-                J.pos(f"check --json {where}", q, S, {fname}, dd)
+            q = {"start_offset": p["start_offset"], "end_offset": p["end_offset"], "line_number": o["line_number"] - 1, "end_line_number": o["end_line_number"] - 1,
+                 "column": o["column"], "end_column": o["end_column"]}
+            if o["line_number"] < 1:
+                ctx.violation("check --json: line_number is not 1-indexed", dict(dd, diagnostic=o), dd["cli"])
+                continue
+            if key(q) != key(p):
+                ctx.violation("check --json: line/column differ from the in-process diagnostic position", dict(dd, diagnostic=o, position=p), dd["cli"])
+            J.pos("check --json", q, S, OWN, dd)
     ctx.outcome("check --json diagnostics", n_cli)
+    ctx.outcome("check --json files skipped (CLI re-terminates lines: CR / no final newline)", n_cli_skipped)
+    ctx.outcome("check --json files whose diagnostics do not line up with the in-process run (skipped)", n_cli_unmatched)
     if n_cli == 0:
         raise Machinery("vacuous: `check --json` printed no diagnostic")
     print(f"  [c23] check --json {time.time() - t0:.1f}s files={len(cli_cases)}", flush=True)
@@ -524,7 +590,7 @@ def run(ctx):
         n_cases += 1
         n_jobs += 1
         if rc != 0:
-            ctx.violation(f"`reftest-position` ends with {rc}", {"src": t, "offset": off, "stderr": err}, "garden reftest-position <file with src> <offset>")
+            ctx.outcome(f"`reftest-position` ended with {rc} (no position)")
             continue
         out = out.strip()
         if not out.startswith("{"):
@@ -538,6 +604,7 @@ def run(ctx):
         raise Machinery(f"vacuous: go-to-definition answered {n_goto} times")
     print(f"  [c23] goto {time.time() - t0:.1f}s", flush=True)
 
+    J.flush()
     for s, n in sorted(J.by_source.items()):
         ctx.outcome(f"positions from {s}", n)
     for c, n in sorted(J.classes.items()):
@@ -552,6 +619,6 @@ def run(ctx):
     ctx.sample({"source": "diagnostic + fix", "src": DIAG[0][1]})
     ctx.sample({"source": "session response", "src": RUN[1][1]})
     return ("every program of the sets (plain, each/all string literals multi-line, non-ASCII strings and comments) under the canonical layout and every single-gap deviation over the "
-            "9-separator alphabet; single-piece edits; diagnostic, run-time and session programs under the same variants; CLI `check --json` and `reftest-position` on bounded subsets. "
+            "10-separator alphabet; single-piece edits; diagnostic, run-time and session programs under the same variants; CLI `check --json` and `reftest-position` on bounded subsets. "
             "Every position in every answer is checked against the byte offsets of the text that was sent. Non-trivial = the position lies on a line with a multi-line string literal, "
             "non-ASCII text or CR, or spans lines.")
